@@ -157,7 +157,36 @@ def check(db, rep):
     if ok:
         r4.ok('Reference::ExtractAll', 'resumes at position->finish', '%s:%d' % (ea.file, ea.line))
     else:
-        r4.violation('Reference::ExtractAll', '%s:%d' % (ea.file, ea.line), 'the scan does not resume exactly at the end of the previous reference: the second of two adjacent references is never extracted, hence never renamed')
+        # the form `for (p = Next(text); p; p = Next(text, p->finish))` is not recognised: the scan is decided on texts by the evaluated rule
+        from rules import C17
+
+        class _P:
+            def __init__(self):
+                self.bad, self.broken_reason = [], None
+
+            def ok(self, *a_, **k_):
+                pass
+
+            def violation(self, inst, where, detail, path=None):
+                self.bad.append(detail)
+
+            def broken(self, reason):
+                self.broken_reason = reason
+
+            def rule(self, *a_, **k_):
+                return self
+
+            def note(self, *a_, **k_):
+                pass
+            tier = 'quick'
+        pr = _P()
+        C17._scan_evaluated(db, pr)
+        if pr.bad:
+            r4.violation('Reference::ExtractAll', '%s:%d' % (ea.file, ea.line), 'the scan misses references (%s): a missed reference is never renamed' % pr.bad[0][:200])
+        elif pr.broken_reason:
+            r4.broken(pr.broken_reason)
+        else:
+            r4.ok('Reference::ExtractAll', 'form not recognised; the interpreted scan (C17 r9) finds exactly the well-formed references, adjacent ones included', '%s:%d' % (ea.file, ea.line), nontrivial=False)
 
     # ------------------------------------------------------------------ r5
     r5 = rep.rule('r5', 'EVERYWHERE: core entry points translate both sides; substitution on rename translates the whole storage', 6)
